@@ -94,14 +94,16 @@ def evaluator_lock_rule(ctx, program, rid):
         while p is not None and p is not fn:
             if isinstance(p, ast.AsyncWith):
                 for item in p.items:
-                    nm = norm(item.context_expr).replace("self.", "")
+                    nms = {norm(item.context_expr).replace("self.", "")}
                     if isinstance(item.context_expr, ast.Name):
-                        # a local alias: `lock = self._eval_lock` ... `async with lock:`
+                        # a local alias: `lock = self._eval_lock` / `lock = self._eval_lock = asyncio.Lock()` ... `async with lock:`
                         for a in body_walk(fn):
                             if isinstance(a, ast.Assign) and any(isinstance(t, ast.Name) and t.id == item.context_expr.id for t in a.targets):
-                                nm = norm(a.value).replace("self.", "")
-                    if nm in locks:
-                        held = nm
+                                nms.add(norm(a.value).replace("self.", ""))
+                                nms |= {norm(t).replace("self.", "") for t in a.targets if isinstance(t, ast.Attribute)}
+                    for nm in sorted(nms):
+                        if nm in locks and not nm == getattr(item.context_expr, "id", None):
+                            held = nm
             p = getattr(p, "_parent", None)
         ctx.check(fresh or held is not None, rid, uid, f"evaluation through {recv} is serialised or uses its own evaluator",
                   msg=f"check_expression_vars awaits `{short(ev.value)}` on the decorator's single evaluator without holding a lock (locks of the class: {sorted(locks) or 'none'}): "
